@@ -1,7 +1,7 @@
 (* c08_driver.ml — runs the extracted scaling model (ScalImpl.v / ScalSpec.v) on the C08 case protocol (see harness/c08.c).
    Extra input line "T k bits": use this bit pattern as pow(10.0,k) (the value libm returned on this machine) instead of
    the correctly rounded pow10_rn k; produces no output.  Extra input line "V a b": select the mirrored variant of the code
-   (a = fx_neg, b = fx_f32, 0/1; see ScalImpl.v); produces no output.  R lines print a fifth token: quantQ of the decoded double. *)
+   (a = fx_neg, b = fx_f32, optional c = fx_f32n, 0/1; see ScalImpl.v); produces no output.  R lines print a fifth token: quantQ of the decoded double. *)
 let pos_of_int (i : int) : positive = match n_of_int i with Npos p -> p | N0 -> failwith "pos_of_int"
 let int_of_pos (p : positive) : int = int_of_n (Npos p)
 let big_of_dec (s : string) : z =            (* decimal, any size *)
@@ -52,6 +52,7 @@ let hex_of_f (x : binary_float) : string =
   Printf.sprintf "%08x" ((if s then 0x80000000 else 0) lor (e lsl 23) lor f)
 let fx_neg = ref false
 let fx_f32 = ref false
+let fx_f32n = ref false
 let powtab : (int, binary_float) Hashtbl.t = Hashtbl.create 64
 let pow10 (k : z) : binary_float =
   match Hashtbl.find_opt powtab (int_of_z k) with Some v -> v | None -> let v = pow10_rn k in Hashtbl.replace powtab (int_of_z k) v; v
@@ -63,7 +64,7 @@ let () = iter_lines (fun line ->
   match split_ws line with
   | [] -> ()
   | "T" :: k :: bits :: _ -> Hashtbl.replace powtab (int_of_string k) (d_of_hex bits)
-  | "V" :: a :: b :: _ -> fx_neg := (a = "1"); fx_f32 := (b = "1")
+  | "V" :: a :: b :: rest -> fx_neg := (a = "1"); fx_f32 := (b = "1"); fx_f32n := (match rest with c :: _ -> c = "1" | [] -> false)
   | "P" :: k :: _ -> print_endline (hex_of_d (pow10 (z_of_int (int_of_string k))))
   | "M" :: n :: _ -> print_endline (hex_of_z (missing_ivalue (z_of_int (int_of_string n))))
   | "N" :: v :: _ -> print_endline (dec_of_z (value_nbits (big_of_dec v)))
@@ -74,8 +75,8 @@ let () = iter_lines (fun line ->
     let i = big_of_dec (List.hd rest) in
     let d = cvt_i64_to_dval pow10 !fx_neg en i in
     let j = cvt_dval_to_i64 pow10 !fx_neg desc en d in
-    let f = cvt_i32_to_fval pow10 !fx_f32 en i in
-    let k = cvt_fval_to_i32 pow10 !fx_f32 desc en f in
+    let f = cvt_i32_to_fval pow10 !fx_f32 !fx_f32n en i in
+    let k = cvt_fval_to_i32 pow10 !fx_f32 !fx_f32n desc en f in
     let qd = if is_missing_double d then "m" else dec_of_z (quantQ en.e_scale en.e_ref en.e_nbits (b2Q (z_of_int 53) (z_of_int 1024) d)) in
     Printf.printf "%s %s %s %s %s\n" (hex_of_d d) (hex_of_z j) (hex_of_f f) (hex_of_z k) qd
   | "D" :: t ->
@@ -83,7 +84,7 @@ let () = iter_lines (fun line ->
     print_endline (hex_of_z (cvt_dval_to_i64 pow10 !fx_neg desc en (d_of_hex (List.hd rest))))
   | "F" :: t ->
     let (en, desc, rest) = enc_of t in
-    print_endline (hex_of_z (cvt_fval_to_i32 pow10 !fx_f32 desc en (f_of_hex (List.hd rest))))
+    print_endline (hex_of_z (cvt_fval_to_i32 pow10 !fx_f32 !fx_f32n desc en (f_of_hex (List.hd rest))))
   | "X" :: t ->
     let (en, desc, rest) = enc_of t in
     let v = d_of_hex (List.hd rest) in
